@@ -55,6 +55,16 @@ Theorem C06_unstartable :
 Proof. exact logon_unstartable. Qed.
 Print Assumptions C06_unstartable.
 
+(* with a positive lower limit (the constructor refuses 0; only a negative lower limit admits the case
+   above) every interval within the limits is positive: acceptance is decided by method, limits and
+   approval alone *)
+Theorem C06_positive_limits_startable :
+  forall cfg s enc hb lo hi,
+    st_limits (s_settings s) = Some (lo, hi) -> (0 < lo)%Z ->
+    check_logon_params cfg s enc hb = None -> (0 < hb)%Z.
+Proof. exact positive_limits_startable. Qed.
+Print Assumptions C06_positive_limits_startable.
+
 (* any other Logon while waiting: one Reject by the Logon's sequence number, naming the
    offending tag when there is one; the state is not touched (only the settings record) *)
 Theorem C06_refused :
